@@ -335,9 +335,18 @@ class Calls(Interp):
             if isinstance(base, VEnt):
                 fields = list(self.reg.entities[base.cls]) if last == "*" else [last]
                 for f in fields:
+                    if (base.oid, f) not in self.st.fields:
+                        # a field this entity view does not carry (the callee's contract was written for a richer view of the class): nothing to havoc
+                        continue
                     v = self.st.fields[(base.oid, f)]
                     if isinstance(v, VCont):
                         loc = ("f", base.oid, f)
+                        if loc not in self.st.conts:
+                            # a freshly constructed entity whose container field is still the "unset" placeholder: the callee (its __init__) fills it
+                            # with an arbitrary container of the declared type
+                            self._ctr += 1
+                            self.st.fields[(base.oid, f)] = self.sym(self.reg.entities[base.cls][f], "m_%s_%s!%d" % (base.cls, f, self._ctr))
+                            continue
                         self.st.conts[loc] = self.havoc_cont(self.st.conts[loc], "m_%s_%s" % (base.cls, f))
                     elif isinstance(v, VEnt) or (isinstance(v, VOpt) and isinstance(v.val, VEnt) and not z3.is_true(z3.simplify(v.isnone))):
                         pass  # reference fields are not re-pointed by callees unless listed with their own fields
@@ -601,6 +610,11 @@ class Calls(Interp):
         name = cls.name
         if name not in self.reg.entities and (name in BUILTIN_EXC or (name in self.reg.exc_bases and is_exc_subclass(self.reg, self.src, name, "BaseException"))):
             return VExc(name, args)
+        top_ = self.reg.contracts.get(self.fid)
+        local_ = (top_.labels.get("constructors") if top_ else None) or {}
+        if name in local_:
+            # a constructor summarised for the verification of THIS function only (stated in its contract's labels and in the module's assumptions)
+            return local_[name](self, args, kwargs)
         if name in self.reg.constructors:
             return self.reg.constructors[name](self, args, kwargs)
         if name in self.reg.records:
@@ -1060,7 +1074,7 @@ class Calls(Interp):
         g = n.generators[0]
         if g.is_async:
             raise Unsupported("async")
-        it = self.ev(g.iter)
+        it = self.iter_view(self.ev(g.iter))
         if isinstance(it, VTuple):
             box = self.new_box(EmptyV("list"))
             saved = dict(self.st.env)
